@@ -32,7 +32,8 @@ def must_see(tier):
         for k in setops.CONTAINER_KINDS:
             m['%s:left:%s' % (impl, k)] = 20
             m['%s:right:%s' % (impl, k)] = 20
-        for k in ('shuffled', 'dups', 'generator', 'other-impl', 'pyset'):
+        for k in ('shuffled', 'dups', 'generator', 'other-impl', 'pyset',
+                  'keys-view', 'values-view'):
             m['%s:right:%s' % (impl, k)] = 10
         for f in ('fn:union', 'fn:intersection', 'fn:difference', 'op:|',
                   'op:&', 'op:-', 'op:^', 'iop:|=', 'iop:&=', 'iop:-=',
@@ -279,7 +280,7 @@ def run_case(fam, impl, rng, rec, uni, vals, i):
         return
     # operands unchanged
     if snap_a is not None and setops.snapshot(a) != snap_a and \
-            kinda != 'generator':
+            kinda not in ('generator',):
         rec.violation('left-operand-modified', **d)
         return
     if snap_b is not None and setops.snapshot(b) != snap_b and \
